@@ -387,7 +387,7 @@ func getInfoFromURL(svcURL string) (policyKeys []string, domain string, err erro
 		protocols = []uint8{6, 17} // TCP + UDP
 		port = 443
 	case "udp":
-		protocols = []uint8{6}
+		protocols = []uint8{17}
 	case "icmp6", "ping6":
 		protocols = []uint8{58}
 		port = 0
